@@ -71,7 +71,7 @@ def sortDedup (l : List Int) : List Int :=
 
 def b01 (b : Bool) : String := if b then "1" else "0"
 
-def stateStr : SheetState → String
+def umStateStr : SheetState → String
   | .visible => "v"
   | .hidden => "h"
   | .veryHidden => "x"
@@ -83,7 +83,7 @@ def sheetStr (cols rows : List Int) (s : Sheet) : String :=
   let rs := rows.filterMap fun r =>
     let v := s.rowAt r
     if v == RowView.default then none else some s!"{r}:{v.height}:{b01 v.hidden}"
-  s!"S[{hexEncode s.name},{s.id},{stateStr s.state},{hexEncode s.color},{s.frozenRows},{s.frozenCols},g{b01 s.grid},C\{{" ".intercalate cs}},R\{{" ".intercalate rs}}]"
+  s!"S[{hexEncode s.name},{s.id},{umStateStr s.state},{hexEncode s.color},{s.frozenRows},{s.frozenCols},g{b01 s.grid},C\{{" ".intercalate cs}},R\{{" ".intercalate rs}}]"
 
 def bookStr (cols rows : List Int) (b : Book) : String :=
   s!"n={hexEncode b.name};l={hexEncode b.locale};t={hexEncode b.tz};" ++
